@@ -1245,7 +1245,6 @@ Lemma g_defclass_parts : forall w n supers slots rorder corder, g_defclass w n s
         let subs := sub_ids w n in
         let bad := n :: flat_map (fun id => match name_of w id with Some m => [m] | None => [] end) subs in
         forallb (fun d => negb (memb d bad)) supers
-        && forallb (fun k => negb (memb k bad)) (cache_keys w)
       else true
   end = true.
 Proof.
@@ -1254,14 +1253,21 @@ Proof.
   repeat split; assumption.
 Qed.
 
+(* the invariant speaks of the heap and the registry only *)
+Lemma Inv_clear : forall w, Inv w -> Inv (clear_caches w).
+Proof. intros [h r g i] H. exact H. Qed.
+
 Theorem defclass_inv : forall w n supers slots rorder corder, Inv w ->
   g_defclass w n supers slots rorder corder = true ->
   Inv (defclass w n supers slots rorder corder) /\
-  ext (defclass_reg w n supers slots) (defclass w n supers slots rorder corder).
+  ext (defclass_reg w n supers slots) (defclass_merged w n supers slots rorder corder).
 Proof.
   intros w n supers slots rorder corder HI G.
+  cut (Inv (defclass_merged w n supers slots rorder corder) /\
+       ext (defclass_reg w n supers slots) (defclass_merged w n supers slots rorder corder)).
+  { intros [A B]. split; [apply Inv_clear; assumption | assumption]. }
   destruct (g_defclass_parts _ _ _ _ _ _ G) as [A2 [R1 [R2 [C1 [C2 Hcase]]]]]. clear G.
-  apply nodupb_NoDup in A2. unfold defclass. unfold defclass_pre in *.
+  apply nodupb_NoDup in A2. unfold defclass_merged. unfold defclass_pre in *.
   set (wr := defclass_reg w n supers slots) in *.
   assert (HR1 : forall id, In id (reg_ids wr) -> In id rorder) by (intros id Hi; apply memb_In; exact (forallb_In _ _ _ id R1 Hi)).
   assert (HR2 : forall id, In id rorder -> In id (reg_ids wr)) by (intros id Hi; apply memb_In; exact (forallb_In _ _ _ id R2 Hi)).
@@ -1275,8 +1281,7 @@ Proof.
   destruct (lookup (reg w) n) as [old|] eqn:Lold.
   - destruct (readyb w old) eqn:Rold.
     + (* case B *)
-      repeat (apply andb_true_iff in Hcase; destruct Hcase as [Hcase ?]).
-      rename H into Gcache. rename Hcase into G1.
+      rename Hcase into G1.
       apply readyb_true in Rold. destruct Rold as [oc [Go Po]].
       assert (HG1 : forall s sid, In s supers -> lookup (reg w) s = Some sid -> s <> n /\ ~ In sid (sub_ids w n)).
       { intros s sid Hs Ls. pose proof (forallb_In _ _ _ s G1 Hs) as Hb. apply negb_true_iff in Hb. apply memb_false in Hb.
